@@ -857,7 +857,11 @@ func checkC22(p *Prog, r *Report) {
 				nSend++
 				isBuild, notDir := false, false
 				extra := ""
-				for _, f := range factsAt(snd) {
+				facts := factsAt(snd)
+				for _, f := range facts {
+					facts = append(facts, shortCircuitFacts(f, 0)...) // `case a && b:` of a tagless switch is a phi
+				}
+				for _, f := range facts {
 					switch v := f.V.(type) {
 					case *ssa.Call:
 						if callsFn(v, ibf) {
@@ -876,6 +880,11 @@ func checkC22(p *Prog, r *Report) {
 						}
 					case *ssa.BinOp:
 						// comparisons of the name with constants / the prefix (skip rules)
+					case *ssa.Phi:
+						if v.Comment == "&&" || v.Comment == "||" {
+							continue // a case condition of a tagless switch: its operands are facts of their own when definite
+						}
+						extra = f.V.String()
 					default:
 						if fv := resolveParam(f.V); fv != nil && !f.Val {
 							notDir = true
